@@ -702,6 +702,7 @@ type havocPlan struct {
 func (x *Exec) planHavoc(st *State, cells map[*Cell]bool, body func(st *State)) *havocPlan {
 	plan := &havocPlan{cells: cells, coarse: map[string]bool{}, refs: map[string][]*Term{}}
 	written := map[string]bool{}
+	s0 := serialCounter
 	for round := 0; round < 6; round++ {
 		ds := st.clone()
 		syms := map[*Term]bool{}
@@ -733,13 +734,35 @@ func (x *Exec) planHavoc(st *State, cells map[*Cell]bool, body func(st *State)) 
 			ds.heap[n] = f
 		}
 		var ws []writeRec
-		saveW, saveCW := x.writes, x.cellWrites
+		saveW, saveCW, saveT := x.writes, x.cellWrites, touchLog
 		x.writes = &ws
+		touched := map[string]bool{}
+		touchLog = &touched
 		x.dry++
 		func() {
-			defer func() { x.dry--; x.writes = saveW; x.cellWrites = saveCW }()
+			defer func() { x.dry--; x.writes = saveW; x.cellWrites = saveCW; touchLog = saveT }()
 			body(ds)
 		}()
+		if saveT != nil {
+			for n := range touched {
+				(*saveT)[n] = true
+			}
+		}
+		recorded := map[string]bool{}
+		for _, w := range ws {
+			recorded[w.heap] = true
+		}
+		var tn []string
+		for n := range touched {
+			tn = append(tn, n)
+		}
+		sort.Strings(tn)
+		for _, n := range tn {
+			if !recorded[n] {
+				ws = append(ws, writeRec{n, nil})
+			}
+		}
+		_ = saveW
 		changed := false
 		plan.coarse = map[string]bool{}
 		plan.refs = map[string][]*Term{}
@@ -748,7 +771,7 @@ func (x *Exec) planHavoc(st *State, cells map[*Cell]bool, body func(st *State)) 
 				written[w.heap] = true
 				changed = true
 			}
-			if w.ref == nil || termHasVar(w.ref, syms) {
+			if w.ref == nil || termHasVar(w.ref, syms) || newerThan(w.ref, s0) {
 				plan.coarse[w.heap] = true
 				continue
 			}
@@ -764,6 +787,16 @@ func (x *Exec) planHavoc(st *State, cells map[*Cell]bool, body func(st *State)) 
 		}
 		if !changed {
 			break
+		}
+	}
+	if x.writes != nil {
+		for n := range plan.coarse {
+			*x.writes = append(*x.writes, writeRec{n, nil})
+		}
+		for n, rs := range plan.refs {
+			for _, r := range rs {
+				*x.writes = append(*x.writes, writeRec{n, r})
+			}
 		}
 	}
 	return plan
@@ -869,6 +902,7 @@ func (x *Exec) enterLoop(fr *Frame, li *loopInfo, entry *State) *State {
 	if ord == 0 && len(invs) == 0 {
 		x.note(fmt.Sprintf("loop without source ordinal in %s", fr.key))
 	}
+	x.cover(head, fmt.Sprintf("loop %d head reachable under its invariant", ord))
 	return head
 }
 
